@@ -72,9 +72,9 @@ def queries(tier):
                            unwindset=parse_unwindset(9, 1, elems=2), object_bits=12, timeout=900, mem_gb=6,
                            desc='JSON::parse(%s) on the templated document %s (concrete skeleton + trailing holes of one lexical class each): expected acceptance / kind / value / exception type' % ('strict' if st else 'default', TNAMES[t]),
                            bounds='template %s, mode %s, every value of the holes' % (TNAMES[t], 'strict' if st else 'default')))
-    for t, hole, st in [(30, 0, 0), (31, 0, 0), (32, 0, 0), (33, 1, 0), (33, 0, 0), (34, 0, 1), (34, 1, 1), (35, 0, 1), (36, 0, 1), (37, 0, 1), (37, 0, 0)]:
-        qs.append(dict(name='x%02d_h%d_s%d' % (t, hole, st), unit='json', harness='h_tmpl.c', defs={'TPL': t, 'STRICT': st, 'HOLE': hole}, unwind=12,
-                       unwindset=parse_unwindset(12, 2, elems=2), object_bits=12, timeout=900, mem_gb=24, desc='x', bounds=''))
+    for t, hole, st, elem, nb in [(33, 0, 0, 0, 1), (33, 0, 0, 1, 1), (34, 0, 0, 0, 1), (37, 0, 1, 0, 1)]:
+        qs.append(dict(name='x%02d_h%d_s%d_e%d' % (t, hole, st, elem), unit='json', harness='h_tmpl.c', defs={'TPL': t, 'STRICT': st, 'HOLE': hole, 'ELEM': elem}, unwind=12,
+                       unwindset=parse_unwindset(12, nb, elems=2), object_bits=12, timeout=900, mem_gb=24, desc='x', bounds=''))
     if os.environ.get('C05_PROBES'):
         # measurement only (see OUTSIDE): whole JSON::parse on fully symbolic bytes. None of these returned a verdict.
         for L, NB in ((1, 0), (2, 0), (2, 1)):
